@@ -75,9 +75,30 @@ NOTES = {
  'C13-geartrain-drops-commands-that-overflow': 'gear train does not relay a command whose scaled value overflows f32 (|v| above ~3e36): the far side keeps the old command',
  'C15-follow-holds-getter-borrow-across-set': 'update_following_data keeps its borrow of the followed getter while it calls set: an impl_set that mutably borrows that getter panics',
  'C20-pid-wrapper-clock-never-runs-backwards': 'PID wrapper clamps its clock to the last output time: a state stamped earlier than the previous update (late sample, or first state older than an opening command)',
+ 'C02-and-short-circuits-on-false-first-input': 'AndStream returns early when its first input is false: a second input that errs (or is newer) is ignored',
+ 'C04-integral-halves-integer-interval': 'PID integral halves the interval as an integer: odd nanosecond intervals, short enough to matter, ki != 0',
+ 'C08-equal-trust-differential-guesses-missing-sum': 'equal-trust differential with both sides known and no sum reading writes side1 + side2 into its sum terminal instead of waiting',
+ 'C12-ewmaq-equal-sample-keeps-update-time': 'Quantity EWMA: a sample equal to the current average is passed through without advancing the update time; the next different sample uses a stale dt',
+ 'C16-reference-unsafe-impl-send-sync': '`unsafe impl Send + Sync for ReferenceUnsafe`: an Rc-backed (or bare-pointer) Reference may now cross threads in safe code',
+ 'C17-to-dyn-names-std-in-callers-crate': '`to_dyn!` expands to `std::rc::Rc<std::cell::RefCell<..>>`: does not compile in a #![no_std] calling crate while rrtk itself has std',
+ 'C19-state-update-empty-in-default-release-build': 'State::update compiled to nothing when dim_check_debug is on, dim_check_release off and debug assertions off (default features, --release)',
+ 'C20-terminaldata-stamp-newer-of-state-and-command': 'combined TerminalData read stamped with the newer of state and command (instead of the state\'s stamp): a command newer than the state',
  'C19-libm-powf-whole-exponent-squaring': 'no_std+libm only: powf with a whole-number exponent by repeated squaring (dozens of ulps for large |n|, 0 for subnormal results)',
 }
 HISTORY = {
+ 'C19-state-update-empty-in-default-release-build': 'MISSED at both tiers: all six builds had debug assertions on and none enabled dim_check_debug alone, so code under '
+   '`not(any(dim_check_release, dim_check_debug))`-style predicates that forget `debug_assertions` was never compiled in its failing shape. A seventh build was added: the '
+   'crate\'s DEFAULT features with the rrtk package compiled without debug assertions (`stdrelease_nodim`: what a default-feature user\'s `cargo build --release` gives). '
+   'Caught at quick tier since.',
+ 'C17-to-dyn-names-std-in-callers-crate': 'MISSED at both tiers (and the evaluation script did not count a demonstration that fails to COMPILE as failing - fixed): both calling crates '
+   'of the check link std, whatever features they declare. A third calling crate, `callers/nostd` (#![no_std] library + a small std runner), now expands `to_dyn!` on the Rc and '
+   'static variants while rrtk is built with std; if it does not build or run, that is `C17|to_dyn_no_std_caller|...`. Caught at quick tier since.',
+ 'C16-reference-unsafe-impl-send-sync': 'MISSED at both tiers: the change alters no existing program, it admits new ones. The Miri reference program now decides at compile time (method '
+   'resolution: an inherent method bounded on Send against a blanket trait fallback) whether an Rc-backed Reference may move to another thread; if the type system allows it, it '
+   'does so and churns the counts from two threads - the interpreter reports the data race - and the case fails in any event. Caught at quick tier since.',
+ 'C20-terminaldata-stamp-newer-of-state-and-command': 'NOT reported by the C20 check (its expectations are built from the real combined read of the wrapper\'s terminal, so a change inside that read moves '
+   'both sides), but by C09/quick (`combined_read_time`), the property that states which stamp the combined read carries. Left as it is: the defect is in the terminal, and the terminal\'s '
+   'check reports it.',
  'C13-geartrain-drops-commands-that-overflow': 'MISSED at both tiers: command values came from the moderate pool, so no relayed value ever left the f32 range. 3 % of the commands are now '
    'f32::MAX, +-1e37, -3e38, 3e36; the relay oracles treat an image beyond the f32 range as +-inf (no value comparison, stamp and kind still checked; a tie between an '
    'overflowed and a finite copy counts as a conflict). Caught at quick tier since (bounded progress: the far side reads nothing).',
@@ -171,8 +192,11 @@ for d in sorted(glob.glob('/verif/seeded/*/')):
 out = ["# Independently written property-breaking changes\n",
 "Each directory holds `patch.diff` (library change only), `seeded_demo.rs` (the author's demonstration), `NOTES.author.md` and",
 "`meta.json` (what was confirmed and which checks were run). The authors were sub-agents that saw only the text of one property and",
-"a scratch worktree of the repository — nothing from /verif (second-round authors were additionally told, in one sentence, what an",
-"earlier author had changed, so that they would pick something else). Every change compiles, passes the 138 baseline tests (and the",
+"a scratch worktree of the repository — no file from /verif. From the second round on they were additionally told, in one sentence each,",
+"what earlier authors had changed (so that they would pick something else); from round six on the request also said, in prose, what kind",
+"of tester the change has to slip past (what it generates and what it compares - written from memory of the checks, with a list of places",
+"it might not reach), which made the changes markedly harder to catch: rounds 1-5 found 7 gaps in 42 changes, rounds 6-9 found 19 in 32.",
+"Every change compiles, passes the 138 baseline tests (and the",
 "`devices` feature tests), and its demonstration fails with the change and passes without it; all of that was re-run by",
 "`tools/seeded_eval.py`, which then applied the patch to /repo, ran the listed checks and undid it (`git -C /repo checkout -- .`).",
 "Nothing here is ever committed to /repo.\n",
